@@ -5,6 +5,7 @@ import (
 	"encoding/json"
 	"fmt"
 	"strings"
+	"unicode/utf8"
 )
 
 // The reference model of one service connection, written from the property
@@ -33,6 +34,7 @@ type DispatchModel struct {
 	Cid    int    `json:"cid"`
 	Iface  string `json:"iface"`
 	Method string `json:"method"`
+	Frame  int    `json:"frame"`
 }
 
 // ConnModel is what the model predicts for one connection.
@@ -73,6 +75,11 @@ type parsedCall struct {
 // parseCall classifies a frame per the statement of C10/C04: a call is a JSON
 // object with a string method (bare null = empty call).
 func parseCall(text string) parsedCall {
+	if !utf8.ValidString(text) {
+		// whether JSON text that is not valid UTF-8 is "valid JSON" is not
+		// something the statements settle
+		return parsedCall{ok: true, ambiguous: true}
+	}
 	dec := json.NewDecoder(strings.NewReader(text))
 	dec.UseNumber()
 	var v interface{}
@@ -311,7 +318,7 @@ func ModelConn(svc ServiceSpec, frames []FrameSpec, stopAfter int, scripts map[i
 					cid = *p.Cid
 				}
 			}
-			cm.Dispatch = append(cm.Dispatch, DispatchModel{Cid: cid, Iface: rt.iface, Method: rt.method})
+			cm.Dispatch = append(cm.Dispatch, DispatchModel{Cid: cid, Iface: rt.iface, Method: rt.method, Frame: fi})
 			sc, ok := scripts[cid]
 			if !ok {
 				sc = Script{Actions: []Action{{Op: "reply"}}}
@@ -321,23 +328,23 @@ func ModelConn(svc ServiceSpec, frames []FrameSpec, stopAfter int, scripts map[i
 				switch a.Op {
 				case "reply":
 					if a.Continues && !pc.more {
-						cm.Refused[f.Cid] = append(cm.Refused[f.Cid], ai)
+						cm.Refused[cid] = append(cm.Refused[cid], ai)
 						continue
 					}
-					cm.Accepted[f.Cid] = append(cm.Accepted[f.Cid], ai)
-					emit(ReplyModel{Cid: f.Cid, Params: normParams(a.Params), Continues: a.Continues})
+					cm.Accepted[cid] = append(cm.Accepted[cid], ai)
+					emit(ReplyModel{Cid: cid, Params: normParams(a.Params), Continues: a.Continues})
 				case "error":
 					if !errorNameSendable(a.Name) {
-						cm.Refused[f.Cid] = append(cm.Refused[f.Cid], ai)
+						cm.Refused[cid] = append(cm.Refused[cid], ai)
 						continue
 					}
-					cm.Accepted[f.Cid] = append(cm.Accepted[f.Cid], ai)
-					emit(ReplyModel{Cid: f.Cid, Params: normParams(a.Params), Error: a.Name})
+					cm.Accepted[cid] = append(cm.Accepted[cid], ai)
+					emit(ReplyModel{Cid: cid, Params: normParams(a.Params), Error: a.Name})
 				case "builtin":
-					cm.Accepted[f.Cid] = append(cm.Accepted[f.Cid], ai)
+					cm.Accepted[cid] = append(cm.Accepted[cid], ai)
 					field := map[string]string{"MethodNotFound": "method", "MethodNotImplemented": "method",
 						"InvalidParameter": "parameter", "InterfaceNotFound": "interface"}[a.Name]
-					emit(stdError(f.Cid, a.Name, field, a.Arg))
+					emit(stdError(cid, a.Name, field, a.Arg))
 				case "fail":
 					failed = true
 				case "rawread", "rawwrite", "readframe":
@@ -349,7 +356,7 @@ func ModelConn(svc ServiceSpec, frames []FrameSpec, stopAfter int, scripts map[i
 			}
 			if failed {
 				cm.ServerCloses = true
-				cm.EndsAfterCid = f.Cid
+				cm.EndsAfterCid = cid
 				return cm
 			}
 			if cm.RawMode {
